@@ -1,6 +1,7 @@
 package main
 
 import (
+	"fmt"
 	"io/ioutil"
 	"net"
 	"os"
@@ -28,6 +29,7 @@ type endpoint struct {
 	conns []net.Conn
 	recv  [][]byte // per accepted connection
 	total int
+	mode  string // healthy | blackhole (accept, never read) | slow (read a little every few ms)
 }
 
 func (e *endpoint) listen() error {
@@ -59,9 +61,19 @@ func (e *endpoint) listen() error {
 			e.recv = append(e.recv, nil)
 			e.conns = append(e.conns, c)
 			e.Unlock()
+			mode := e.mode
 			go func() {
+				if mode == "blackhole" {
+					return // accepted, never read
+				}
 				buf := make([]byte, 65536)
+				if mode == "slow" {
+					buf = make([]byte, 512)
+				}
 				for {
+					if mode == "slow" {
+						time.Sleep(2 * time.Millisecond)
+					}
 					n, err := c.Read(buf)
 					if n > 0 {
 						e.Lock()
@@ -80,7 +92,9 @@ func (e *endpoint) listen() error {
 }
 
 func (e *endpoint) down() {
-	e.ln.Close()
+	if e.ln != nil {
+		e.ln.Close()
+	}
 	e.Lock()
 	for _, c := range e.conns {
 		c.Close()
@@ -103,9 +117,15 @@ func init() {
 		var d *destination.Destination
 		var key string
 		var spoolDir string
+		cnt := func(name string) int64 { return stats.Counter("dest=" + key + "." + name).Count() }
 		pace := time.Duration(0)
 		sent := 0
-		cnt := func(name string) int64 { return stats.Counter("dest=" + key + "." + name).Count() }
+		maxHandoff := time.Duration(0)
+		counters := func() string {
+			return fmt.Sprintf("slow_conn=%d conn_down_no_spool=%d slow_spool=%d bad_pickle=%d",
+				cnt("unit=Metric.action=drop.reason=slow_conn"), cnt("unit=Metric.action=drop.reason=conn_down_no_spool"),
+				cnt("unit=Metric.action=drop.reason=slow_spool"), cnt("unit=Metric.action=drop.reason=bad_pickle"))
+		}
 		stop := func() {
 			if d != nil {
 				done := make(chan bool)
@@ -138,8 +158,17 @@ func init() {
 				if len(f) > 6 {
 					reconn, _ = strconv.Atoi(f[6])
 				}
-				ep = &endpoint{}
-				if err := ep.listen(); err != nil {
+				ep = &endpoint{mode: "healthy"}
+				if len(f) > 7 {
+					ep.mode = f[7]
+				}
+				maxHandoff = 0
+				if ep.mode == "refuse" {
+					// reserve an address nobody listens on
+					l, _ := net.Listen("tcp", "127.0.0.1:0")
+					ep.addr = l.Addr().String()
+					l.Close()
+				} else if err := ep.listen(); err != nil {
 					emit("cfgerr listen")
 					return
 				}
@@ -158,11 +187,13 @@ func init() {
 				key = d.Key
 				d.Run()
 				// (WaitOnline is only used by the repo's tests and misses a conn that is already up; poll instead)
-				for i := 0; i < 5000 && !d.Online; i++ {
-					time.Sleep(time.Millisecond)
-				}
-				if !d.Online {
-					emit("cfgerr never online")
+				if ep.mode != "refuse" {
+					for i := 0; i < 5000 && !d.Online; i++ {
+						time.Sleep(time.Millisecond)
+					}
+					if !d.Online {
+						emit("cfgerr never online")
+					}
 				}
 				sent = 0
 				pace = 0
@@ -171,9 +202,13 @@ func init() {
 				pace = time.Duration(us) * time.Microsecond
 			case "l":
 				b := unhexArg(f[1])
+				t0 := time.Now()
 				select {
 				case d.In <- b:
 					sent++
+					if dt := time.Since(t0); dt > maxHandoff {
+						maxHandoff = dt
+					}
 				case <-time.After(5 * time.Second):
 					emit("handoff-stalled")
 				}
@@ -183,9 +218,32 @@ func init() {
 			case "down":
 				ep.down()
 			case "up":
+				if len(f) > 1 {
+					ep.mode = f[1]
+				}
 				if err := ep.listen(); err != nil {
 					emit("uperr")
 				}
+			case "waitonline":
+				want := f[1] == "1"
+				for i := 0; i < 8000 && d.Online != want; i++ {
+					time.Sleep(time.Millisecond)
+				}
+				emit("online %v", d.Online)
+			case "phase":
+				// a steady-state boundary: wait until nothing new arrives, then report what has been received and counted so far
+				last, since := -1, time.Now()
+				deadline := time.Now().Add(4 * time.Second)
+				for time.Now().Before(deadline) {
+					t := ep.totalRecv()
+					if t != last {
+						last, since = t, time.Now()
+					} else if time.Since(since) > 150*time.Millisecond {
+						break
+					}
+					time.Sleep(5 * time.Millisecond)
+				}
+				emit("phase %s sent=%d recvbytes=%d %s", f[1], sent, ep.totalRecv(), counters())
 			case "sleep":
 				ms, _ := strconv.Atoi(f[1])
 				time.Sleep(time.Duration(ms) * time.Millisecond)
@@ -208,6 +266,7 @@ func init() {
 				}
 				ep.Unlock()
 				emit("sent %d", sent)
+				emit("maxhandoff_ms %d", maxHandoff/time.Millisecond)
 				emit("drops slow_conn=%d conn_down_no_spool=%d slow_spool=%d bad_pickle=%d",
 					cnt("unit=Metric.action=drop.reason=slow_conn"), cnt("unit=Metric.action=drop.reason=conn_down_no_spool"),
 					cnt("unit=Metric.action=drop.reason=slow_spool"), cnt("unit=Metric.action=drop.reason=bad_pickle"))
